@@ -128,6 +128,106 @@ def build_update(rng, codec, role):
             d = b2.d; tags.append('attr_block_dangling_header')
     return d, tags
 
+def enum_c05():
+    """Case classes enumerated on every run (no randomness), one per clause of the property text
+    and per branch of validate_update / the attribute walk; each carries a 'cls' tag."""
+    from gen.c03_enum import fill
+    out = []
+    c4 = {'ext': False, 'two': False, 'nh': False, 'fams': [(E.IPV4, False), (E.IPV6, False), (E.IPV4_VPN, False)]}
+    c2 = dict(c4); c2['two'] = True
+    def add(cls, codec, role, d): out.append({'codec': codec, 'role': role, 'bytes': d, 'tags': [], 'cls': cls})
+    def base(codec, skip=()):
+        w = 2 if codec['two'] else 4
+        return [a for a, c in ((E.attr(0x40, 1, [0]), 1), (E.attr(0x40, 2, E.aspath_value([(2, [65001])], w)), 2), (E.attr(0x40, 3, [192, 0, 2, 1]), 3)) if c not in skip]
+    nl = [E.prefix(24, [10, 0, 0])]
+    wd = [E.prefix(8, [9])]
+    mp = lambda: E.attr(0x80, 14, E.mp_reach_value(E.IPV6, fill(16), [E.prefix(32, [0x20, 1, 0xd, 0xb8])]))
+    mpu = lambda: E.attr(0x80, 15, E.mp_unreach_value(E.IPV6, [E.prefix(16, [0x20, 2])]))
+    good = {1: [0], 2: None, 3: [192, 0, 2, 1], 4: [0, 0, 0, 5], 5: [0, 0, 0, 100], 6: [], 7: fill(8), 8: fill(4), 9: fill(4), 10: fill(4), 16: fill(8),
+            17: E.aspath_value([(2, [70000])], 4).d, 18: fill(8), 32: fill(12), 26: fill(11), 40: fill(7), 29: fill(9), 23: fill(12)}
+    # every attribute type code 0..255 x the four optional/transitive flag classes (recognised, unrecognised well-known, unrecognised optional)
+    for code in range(256):
+        if code in (14, 15): continue
+        for fl in (0x00, 0x40, 0x80, 0xc0):
+            for codec in (c4,):
+                v = good.get(code, fill(3))
+                if v is None: v = E.aspath_value([(2, [65001])], 4).d
+                attrs = base(codec, skip=(code,)) + [E.attr(fl, code, v)]
+                add('every_code_x_flag_class', codec, ROLES[code % len(ROLES)], E.update(wd, attrs, nl).d)
+    # every recognised code x every high nibble of the flags octet (partial and extended-length bits included), legacy and MP announcement
+    for code in KNOWN:
+        if code in (14, 15): continue
+        for hi in range(16):
+            for codec in (c4, c2):
+                v = good[code]
+                if v is None: v = E.aspath_value([(2, [65001])], 2 if codec['two'] else 4).d
+                a = cat([B([hi << 4, code]), B(E.be(len(v), 2) if hi & 1 else [len(v)]), B(v)])
+                add('known_code_x_flags_nibble', codec, 'ebgp', E.update(wd, base(codec, skip=(code,)) + [a], nl).d)
+                if hi in (4, 8, 12, 0): add('known_code_x_flags_nibble_mp', codec, 'ibgp', E.update([], base(codec, skip=(code, 3)) + [a, mp()], []).d)
+    # MP attributes x every flags nibble
+    for hi in range(16):
+        for code, v in ((14, E.mp_reach_value(E.IPV6, fill(16), [E.prefix(32, [0x20, 1, 0xd, 0xb8])]).d), (15, E.mp_unreach_value(E.IPV6, [E.prefix(16, [0x20, 2])]).d)):
+            a = cat([B([hi << 4, code]), B(E.be(len(v), 2) if hi & 1 else [len(v)]), B(v)])
+            add('mp_attr_x_flags_nibble', c4, 'ebgp', E.update(wd, base(c4, skip=(3,)) + [a], []).d)
+    # omission of each mandatory attribute x (legacy NLRI only, MP_REACH only, both, withdrawals only)
+    for skip in ((), (1,), (2,), (3,), (1, 2), (1, 2, 3)):
+        for shape in ('legacy', 'mp', 'both', 'withdraw_only', 'mp_unreach_only'):
+            attrs = base(c4, skip=skip)
+            if shape in ('mp', 'both'): attrs = attrs + [mp()]
+            if shape == 'mp_unreach_only': attrs = attrs + [mpu()]
+            add('mandatory_omission_x_shape', c4, 'ebgp', E.update(wd, attrs, nl if shape in ('legacy', 'both') else []).d)
+    # NEXT_HOP length 0..33
+    for n in range(0, 34):
+        add('nexthop_length', c4, 'ebgp', E.update([], base(c4, skip=(3,)) + [E.attr(0x40, 3, fill(n))], nl).d)
+        if n in (0, 3, 4, 5, 16, 32): add('nexthop_length_mp_only', c4, 'ebgp', E.update([], base(c4, skip=(3,)) + [E.attr(0x40, 3, fill(n)), mp()], []).d)
+    # ORIGIN values, AS_PATH shapes (zero-length segment, every segment type, confed), both widths
+    for v in (0, 1, 2, 3, 255):
+        add('origin_value', c4, 'ebgp', E.update([], base(c4, skip=(1,)) + [E.attr(0x40, 1, [v])], nl).d)
+    for codec in (c4, c2):
+        w = 2 if codec['two'] else 4
+        for segs in ([], [(2, [])], [(2, [1]), (2, [])], [(0, [1])], [(1, [1])], [(3, [1])], [(4, [1])], [(5, [1])], [(2, [1]), (1, [2, 3]), (3, [4])], [(2, list(range(1, 256)))]):
+            add('aspath_shape', codec, 'ebgp', E.update([], base(codec, skip=(2,)) + [E.attr(0x40, 2, E.aspath_value(segs, w))], nl).d)
+        for d in (-1, 1):
+            v = E.aspath_value([(2, [1, 2])], w).d
+            v = v[:d] if d < 0 else v + [0]
+            add('aspath_shape', codec, 'ebgp', E.update([], base(codec, skip=(2,)) + [E.attr(0x40, 2, v)], nl).d)
+    # every role x each iBGP-only attribute present, and all three
+    for role in ROLES:
+        for codes in ((5,), (9,), (10,), (5, 9, 10), ()):
+            attrs = base(c4) + [E.attr(KNOWN[k], k, good[k]) for k in codes]
+            add('role_x_ibgp_only_attrs', c4, role, E.update([], attrs, nl).d)
+            add('role_x_ibgp_only_attrs', c4, role, E.update([], base(c4, skip=(3,)) + [E.attr(KNOWN[k], k, good[k]) for k in codes] + [mp()], []).d)
+    # two errors together: every pair (fatal, discardable, none) and positions first/last
+    fatal = E.attr(0xc0, 8, fill(3)); disc = E.attr(0x80, 4, fill(3)); as4bad = E.attr(0xc0, 17, [2]); unk_wk = E.attr(0x40, 99, [1]); unk_opt = E.attr(0x80, 99, [1]); unk_tr = E.attr(0xc0, 99, [1])
+    for x in (fatal, disc, as4bad, unk_wk, unk_opt, unk_tr):
+        for y in (None, fatal, disc, as4bad):
+            for first in (True, False):
+                extra = [a for a in (x, y) if a is not None]
+                attrs = (extra + base(c4)) if first else (base(c4) + extra)
+                add('error_pairs_x_position', c4, 'ebgp', E.update(wd, attrs + [mpu()], nl).d)
+    # duplicates of every code (second copy malformed / well-formed), MP twice
+    for code in (1, 2, 3, 4, 5, 8, 17):
+        v = good[code] if good[code] is not None else E.aspath_value([(2, [65001])], 4).d
+        a = E.attr(KNOWN[code], code, v); bad = E.attr(KNOWN[code], code, v + [1, 2, 3])
+        for second in (a, bad):
+            add('duplicate_attr', c4, 'ebgp', E.update([], base(c4, skip=(code,)) + [a, second], nl).d)
+            add('duplicate_attr', c4, 'ebgp', E.update([], base(c4, skip=(code,)) + [bad, a], nl).d)
+    add('duplicate_mp', c4, 'ebgp', E.update([], base(c4) + [mp(), mp()], nl).d)
+    add('duplicate_mp', c4, 'ebgp', E.update([], base(c4) + [mpu(), mpu()], nl).d)
+    # attribute block ending inside an attribute, with legacy NLRI / without
+    for tail in ([0x40], [0x40, 4], [0x50, 4], [0x50, 4, 0], [0x80, 4, 4], [0x80, 4, 4, 1, 2, 3], [0xc0, 8, 0], [0x80, 14, 4, 0, 2, 1]):
+        add('attr_block_truncated', c4, 'ebgp', E.update(wd, base(c4) + [B(tail)], nl).d)
+        add('attr_block_truncated', c4, 'ebgp', E.update(wd, base(c4, skip=(3,)) + [mp(), B(tail)], []).d)
+    # session reset only if it must: NLRI that cannot be parsed / family not negotiated / MP structure
+    add('reset_cases', c4, 'ebgp', E.update([], base(c4), [B([33, 1, 2, 3, 4, 5])]).d)
+    add('reset_cases', c4, 'ebgp', E.update([B([33, 1, 2, 3, 4, 5])], [], []).d)
+    add('reset_cases', c4, 'ebgp', E.update([], base(c4, skip=(3,)) + [E.attr(0x80, 14, E.mp_reach_value(E.IPV6_MC, fill(16), [E.prefix(8, [1])]))], []).d)
+    add('reset_cases', c4, 'ebgp', E.update([], base(c4, skip=(3,)) + [E.attr(0x80, 14, [0, 2, 1])], []).d)
+    add('reset_cases', c4, 'ebgp', E.update([], base(c4, skip=(3,)) + [E.attr(0x80, 14, E.mp_reach_value(E.IPV6, fill(5), [E.prefix(8, [1])]))], []).d)
+    for nh in ([0] * 8 + [1, 1, 1, 1], [0] * 8 + fill(16), fill(4), fill(16), fill(32)):
+        add('vpn_nexthop_forms', c4, 'ebgp', E.update([], base(c4, skip=(3,)) + [E.attr(0x80, 14, E.mp_reach_value(E.IPV4_VPN, nh, [E.vpn([100], [0, 0, 0, 1, 0, 0, 0, 1], 24, [10, 0, 1])]))], []).d)
+    return out
+
 class Prop:
     pid = 'C05'
     props_file = 'Props/C05.v'
@@ -182,7 +282,7 @@ class Prop:
     # ---- generation
     def gen_cases(self, rng, tier):
         n = 3000 if tier == 'quick' else 20000
-        out = []
+        out = enum_c05()
         c4 = {'ext': False, 'two': False, 'nh': False, 'fams': [(E.IPV4, False), (E.IPV6, False)]}
         c2 = {'ext': False, 'two': True, 'nh': False, 'fams': [(E.IPV4, False), (E.IPV6, False)]}
         # deterministic sweep: every recognised attribute x every small value length x flag patterns, legacy and MP announcements
@@ -304,6 +404,7 @@ class Prop:
         o = obs[0]
         t = list(dict.fromkeys([x.split('_')[0] if x.startswith('sweep') else x for x in c.get('tags', [])]))[:6]
         t.append('role_' + c['role'])
+        t.append('class_' + c.get('cls', 'random'))
         if o == PANIC: return t + ['panic']
         if o[0] in (2, 3): t.append('reset')
         elif o[0] == 0:
